@@ -154,3 +154,21 @@ void h_api(void)
     VF_ASSERT(ABT_mutex_lock(ABT_MUTEX_NULL) == ABT_ERR_INV_MUTEX && ABT_mutex_trylock(ABT_MUTEX_NULL) == ABT_ERR_INV_MUTEX && ABT_mutex_unlock(ABT_MUTEX_NULL) == ABT_ERR_INV_MUTEX, "NULL handle rejected");
     VF_REACH("api");
 }
+
+/* a fresh mutex -- created from uninitialised memory or from the static initialisers -- is FREE: word clear, no
+ * waiter, no owner, depth 0, and recursive exactly when asked for */
+static int is_free_mutex(const ABTI_mutex *m, int attrs) { return m->lock.val.val == 0 && m->waiter_lock.val.val == 0 && m->waitlist.p_head == NULL && m->waitlist.p_tail == NULL && m->attrs == attrs && m->nesting_cnt == 0 && m->owner_id == 0; }
+void h_mutex_create(void)
+{
+    ABT_mutex h = (ABT_mutex)0x55; int with_attr, rec; static ABTI_mutex_attr at; at.attrs = rec ? ABTI_MUTEX_ATTR_RECURSIVE : ABTI_MUTEX_ATTR_NONE;
+    int r = with_attr ? ABT_mutex_create_with_attr((ABT_mutex_attr)&at, &h) : ABT_mutex_create(&h);
+    if (r != ABT_SUCCESS) { VF_ASSERT(r == ABT_ERR_MEM && h == ABT_MUTEX_NULL, "failed creation: ABT_ERR_MEM and the NULL handle"); VF_REACH("mutex create failed"); return; }
+    VF_ASSERT(is_free_mutex(ABTI_mutex_get_ptr(h), (with_attr && rec) ? ABTI_MUTEX_ATTR_RECURSIVE : ABTI_MUTEX_ATTR_NONE), "a fresh mutex is free, ownerless, at depth 0; recursive iff requested");
+    /* static initialisers: the same representation */
+    static ABT_mutex_memory m1 = ABT_MUTEX_INITIALIZER, m2 = ABT_RECURSIVE_MUTEX_INITIALIZER;
+    { ABT_mutex_memory c1 = ABT_MUTEX_INITIALIZER, c2 = ABT_RECURSIVE_MUTEX_INITIALIZER; m1 = c1; m2 = c2; } /* (statics are havocked by the instrumentation) */
+    VF_ASSERT(sizeof(ABTI_mutex) <= sizeof(ABT_mutex_memory), "the descriptor fits the user-visible storage");
+    VF_ASSERT(is_free_mutex(ABTI_mutex_get_ptr(ABT_MUTEX_MEMORY_GET_HANDLE(&m1)), ABTI_MUTEX_ATTR_NONE) && is_free_mutex(ABTI_mutex_get_ptr(ABT_MUTEX_MEMORY_GET_HANDLE(&m2)), ABTI_MUTEX_ATTR_RECURSIVE), "ABT_MUTEX_INITIALIZER / ABT_RECURSIVE_MUTEX_INITIALIZER denote a free (recursive) mutex");
+    r = ABT_mutex_free(&h); VF_ASSERT(r == ABT_SUCCESS && h == ABT_MUTEX_NULL, "free releases once, handle reset");
+    VF_REACH("mutex create/free"); VF_COVER(with_attr && rec, "recursive");
+}
